@@ -144,3 +144,58 @@ def run(chk):
             chk.violation('Huffman literal round trip failed: %s' % r, {'component': 'hufrt', 'input': ln[:300000], 'how': 'echo "<input>" | _build/cargo/release/zh entropy'})
     chk.cov['components']['hufrt'] = {'evaluations': len(rt_lines), 'compressor_descriptions': nrt}
     chk.cov['evaluations'] += len(rt_lines)
+    # ---- (d) the literal bit stream itself: the compressor's stream = the modelled stream (codes last symbol first,
+    # 1 bit, padding), byte for byte, in 1 and 4 streams; the decoder model reads the compressor's encoding back
+    datas = []
+    for _ in range(200 if thorough else 60):
+        k = rng.choice([2, 3, 5, 16, 17, 60, 128, 200])
+        base = rng.below(256 - k + 1)
+        n = rng.choice([4, 5, 7, 8, 9, 63, 64, 300, 1025, 3000])
+        d = bytes(base + min(rng.below(k), rng.below(k)) for _ in range(n))
+        if len(set(d)) < 2:
+            continue
+        datas.append(d)
+    code_lines, enc1, enc4 = [], [], []
+    for d in datas:
+        counts = [0] * (max(d) + 1)
+        for b in d:
+            counts[b] += 1
+        code_lines.append('hufcodes ' + ','.join(map(str, counts)))
+        enc1.append('hufenc 1 ' + d.hex())
+        enc4.append('hufenc 4 ' + d.hex())
+    rc = zh_par('entropy', code_lines)
+    r1 = zh_par('entropy', enc1)
+    r4 = zh_par('entropy', enc4)
+    dec = model_run('hufdec', [r.split()[1] for r in r1])
+    mlines, expect = [], []
+    for d, c, a, b, m in zip(datas, rc, r1, r4, dec):
+        codes = ' '.join(c.split()[1:])
+        w = (m or 'missing').split()
+        if w[0] != 'ok' or unhex(w[2] if len(w) > 2 else '-') != d:
+            chk.tie_broken('correspondence:literal-stream', 'the decoder model does not read back the literals the compressor encoded: %s for %d bytes' % ((m or '')[:40], len(d)))
+            break
+        used = int(w[1])
+        real1 = unhex(a.split()[1])[used:]
+        mlines.append('%s %s' % (d.hex(), codes)); expect.append(('1', real1, d))
+        if not b.startswith('ok '):
+            continue
+        real4 = unhex(b.split()[1])[used:]
+        split = (len(d) + 3) // 4
+        parts = [d[:split], d[split:2 * split], d[2 * split:3 * split], d[3 * split:]]
+        if all(parts):
+            sizes = [int.from_bytes(real4[2 * i:2 * i + 2], 'little') for i in range(3)]
+            pos = 6
+            for i, part in enumerate(parts):
+                ln = sizes[i] if i < 3 else len(real4) - pos
+                mlines.append('%s %s' % (part.hex(), codes)); expect.append(('4.%d' % i, real4[pos:pos + ln], part))
+                pos += ln
+    got = model_run('hufstream', mlines)
+    same = 0
+    for ln, (kind, real, d), g in zip(mlines, expect, got):
+        if g != 'ok ' + hexs(real):
+            chk.tie_broken('correspondence:literal-stream', 'the modelled Huffman literal stream (%s of %d symbols) differs from the one the compressor wrote: model %s real %s' % (
+                kind, len(d), (g or '')[:60], hexs(real)[:60]))
+            break
+        same += 1
+    chk.cov['components']['literal-stream'] = {'evaluations': len(mlines), 'streams_identical': same, 'inputs': len(datas)}
+    chk.cov['evaluations'] += len(mlines)
